@@ -53,6 +53,7 @@ CLASSES = [
     ("SplitBudgetManager", BM + "_estimated_budget_zliobaite.py", "ZObj", ["query_by_utility", "update"], "EstimatedBudgetZliobaite"),
     ("RandomBudgetManager", BM + "_estimated_budget_zliobaite.py", "ZObj", ["query_by_utility", "update"], "EstimatedBudgetZliobaite"),
     ("DensityBasedSplitBudgetManager", BM + "_threshold_budget.py", "DObj", ["query_by_utility", "update"], None),
+    ("BalancedIncrementalQuantileFilter", BM + "_balanced_incremental_quantile_filter.py", "QObj", ["query_by_utility", "update"], None),
     ("StreamRandomSampling", "skactiveml/stream/_stream_baselines.py", "CObj", ["query", "update"], None),
     ("PeriodicSampling", "skactiveml/stream/_stream_baselines.py", "CObj", ["query", "update"], None),
 ]
@@ -223,6 +224,10 @@ class MethodTranslator:
             l, lty = self.expr(node.left, env, pre)
             r, rty = self.expr(node.right, env, pre)
         tys = {lty, rty}
+        if "OF" in tys and op in ("-", "*") and tys <= {"OF", "F"}:
+            l = self.coerce(l, lty, "OF", node)
+            r = self.coerce(r, rty, "OF", node)
+            return f"{'subO' if op == '-' else 'mulO'} {par(l)} {par(r)}", "OF"
         if op == "/":
             res = "F"
         elif tys <= {"N"} or tys == {"N", "B"} and lty == "N":
